@@ -930,7 +930,7 @@ impl LineBuf {
 
 		self.select_mode = Some(mode);
 		let range = match mode {
-			SelectMode::Char(_) => SelectRange::OneDim((self.cursor.get(),self.cursor.ret_add(1))),
+			SelectMode::Char(_) => SelectRange::OneDim((self.cursor.get(),self.cursor.get())),
 			SelectMode::Line(_) => SelectRange::OneDim(self.this_line()),
 			SelectMode::Block {..} => SelectRange::TwoDim(self.get_block_select_windows(&mode))
 		};
